@@ -777,7 +777,14 @@ func linearOf(info *types.Info, body ast.Node, e ast.Expr) (map[string]int, bool
 			}
 			out[x.Name] += sign
 			return true
-		case *ast.SelectorExpr, *ast.CallExpr, *ast.IndexExpr:
+		case *ast.CallExpr:
+			// an extracted helper whose body is `return <expr>` stands for that expression
+			if body := helperReturnExpr(info, x); body != nil {
+				return walk(body, sign)
+			}
+			out[types.ExprString(e)] += sign
+			return true
+		case *ast.SelectorExpr, *ast.IndexExpr:
 			out[types.ExprString(e)] += sign
 			return true
 		}
